@@ -844,3 +844,32 @@ for _h in ("lifecycle_near", "lifecycle_far"):
         "C02.restore": sorted(set(HARNESSES[_h].get("shared", {}).get("C02.restore", [])) | {"C14"}),
         "C03.frame.install": sorted(set(HARNESSES[_h].get("shared", {}).get("C03.frame.install", [])) | {"C14"}),
     })
+
+
+# wave 10 (seed C02-j): the order obligations speak about ONE `Vec<PatchGuard>` in installation order popped by the
+# drop loop. When the injector keeps its guards in another container (a map of per-function stacks) CBMC does not get
+# through the container (undecided) and the Verus drop unit is out of shape; native histories over two targets whose
+# patch windows overlap (both orders, with re-fakes) then decide.
+def scan_guards_container(repo):
+    t = open(os.path.join(repo, "src", INJ)).read()
+    code = "\n".join(l for l in t.split("\n") if not l.strip().startswith("//"))
+    m = re.search(r"pub struct InjectorPP\s*\{(.*?)\n\}", code, re.S)
+    if not m:
+        return None, "struct InjectorPP not found"
+    if re.search(r"\bguards\s*:\s*Vec<\s*PatchGuard\s*>", m.group(1)):
+        return True, "InjectorPP keeps its guards in one Vec<PatchGuard> (installation order)"
+    return False, "InjectorPP does not keep its guards in one `Vec<PatchGuard>`: the order obligations (C02.order.*, drop_order_unbounded) do not apply to this container"
+
+
+def _replay_c02_containers(verif):
+    a = _replay_bin("c02_overlap", [], verif)
+    if a.get("reproduced"):
+        return a
+    b = _replay_bin("c02_history", [0, 0], verif)
+    if b.get("reproduced"):
+        return b
+    return dict(reproduced=False, overlap=a, same_function_twice=b)
+
+
+STATIC["guards_in_installation_order"] = dict(props=["C02"], fn=scan_guards_container, obligation="C02.order.container",
+                                              replay_static=_replay_c02_containers, soft=True)
